@@ -1,6 +1,6 @@
 CONSTANTS Eps = ${Eps}  MaxLen = ${MaxLen}
 CONSTANTS Listings <- ${Listings}  BadLists <- ${BadLists}  FailKinds <- ${FailKinds}
-CONSTANTS FilterChoices <- ${Filters}  Probe <- ProbeAll
+CONSTANTS FilterChoices <- ${Filters}  Probe <- ProbeAll  FailBodies <- ${FailBodies}  WithConcurrency = ${Conc}
 SPECIFICATION GenSpec
 INVARIANT Export
 CHECK_DEADLOCK FALSE
